@@ -294,7 +294,11 @@ def r6(ctx: Ctx) -> None:
         if len(resting) != 1:
             ctx.unrec(f, f.node, "cancel removes the order iff it is still resting", "membership test `cancel.order in self.priority_queue` not found on the path")
             continue
-        ctx.check((len(rem) == 1) == resting[0], f, f.node, "cancel removes the order iff it is still resting", "resting -> _remove(cancel.order); else nothing", f"resting={resting[0]} removes={len(rem)}")
+        inline = [e for e in p.walk_events() if (e.kind == "call" and e.data.get("mutates") is not None and key(strip_ver(e.data["mutates"])).endswith("priority_queue") and e.name != "heapify") or (e.kind in ("store", "del") and e.attr is None and e.base is not None and key(strip_ver(e.base)).endswith("priority_queue"))]
+        if resting[0] and not rem and inline:
+            ctx.unrec(f, f.node, "cancel removes the order iff it is still resting", "the order is taken out of the queue in place (not through _remove): that form is not modelled", ", ".join(sorted({getattr(e, "name", None) or e.kind for e in inline})))
+            continue
+        ctx.check((len(rem) == 1) == resting[0] and not (inline and not resting[0]), f, f.node, "cancel removes the order iff it is still resting", "resting -> _remove(cancel.order); else nothing", f"resting={resting[0]} removes={len(rem)}")
     # _remove takes the order out of the queue on every normal path
     f = ctx.func("OrderBook._remove")
     for p in normal_paths(ctx.paths(f.qualname)):
